@@ -28,6 +28,7 @@ const (
 	evOpen
 	evIter
 	evAck
+	evReadClose
 )
 
 type vpEvent struct {
@@ -46,6 +47,7 @@ type vpWorld struct {
 	updateWrites                                                 []WriteOperation
 	updateDeletes                                                []DeleteOperation
 	ctxSeen                                                      []context.Context
+	openMaySucceed                                               bool
 }
 
 var vpW *vpWorld
@@ -116,7 +118,26 @@ func (s *vpStore) CreateFile(ctx context.Context) (io.WriteCloser, []byte, error
 
 func (s *vpStore) OpenFile(ctx context.Context, p []byte) (io.ReadSeekCloser, error) {
 	s.w.log(evOpen, vpFileID(p))
+	if s.w.openMaySucceed && nondetBool() {
+		return &vpReader{w: s.w, id: vpFileID(p)}, nil
+	}
 	return nil, vpInjected()
+}
+
+// vpReader: an opened file whose content is never looked at (the readers above it are stubbed);
+// Close is logged so that handle hygiene can be checked.
+type vpReader struct {
+	w      *vpWorld
+	id     int
+	closed int
+}
+
+func (f *vpReader) Read(p []byte) (int, error)                { return 0, io.EOF }
+func (f *vpReader) Seek(off int64, whence int) (int64, error) { return 0, nil }
+func (f *vpReader) Close() error {
+	f.closed++
+	f.w.log(evReadClose, f.id)
+	return nil
 }
 
 func (s *vpStore) TombstoneFile(ctx context.Context, p []byte) error {
